@@ -347,7 +347,8 @@ def legit(field: int, delete: bool, sym: str, wrongpw: bool, otherip: bool, elap
 def forge(part: int, sym: str, keepdigest: bool, dig: str, elapsed: int) -> bool:
     """
     pre: 0 <= part <= 3 and len(sym) <= B['x'] and all(ord(c) < 256 for c in sym)
-    pre: all(ord(c) < 256 for c in dig) and ((keepdigest and len(dig) == 0) or len(sym) + len(dig) <= B['x'])
+    pre: len(dig) <= B['x'] and ((keepdigest and len(dig) == 0) or len(sym) + len(dig) <= B['x'])
+    pre: all(ord(c) < 256 for c in dig)
     pre: 0 <= elapsed <= 2000
     post: _
     """
